@@ -1,8 +1,7 @@
 (* Props/C05.v — No input byte is lost, duplicated or reordered across parser hand-offs.
    Only statements.  Request-parser hand-offs here; stream-parser hand-offs and the k-request chain
    are added as the stream-parser proofs complete. *)
-From FV Require Import Base.Bytes Gen.Generated Codec.Varint Codec.NV Codec.Header Codec.Bodies Codec.Vars
-  Parser.ReqModel Parser.ReqParamsSpec Parser.ReqWire Parser.ReqTargets Parser.ReqFinal Parser.StreamModel.
+From FV Require Import Base.Bytes Gen.Generated Codec.Varint Codec.NV Codec.Header Codec.Bodies Codec.Vars Parser.ReqModel Parser.ReqParamsSpec Parser.ReqWire Parser.ReqTargets Parser.ReqFinal Parser.StreamModel Parser.AbsStream Parser.StreamSpec Parser.StreamRefine Parser.StreamInv Parser.StreamFinal.
 
 (* after any schedule over any bytes: what was fed = consumed ++ what the parser still holds, and
    the not-yet-fed bytes follow: nothing lost, duplicated or reordered *)
@@ -42,3 +41,56 @@ Proof.
   destruct (F_preamble_exact norm maxc B w pairs trailing sched H1 H2 H3 H4 H5 H6 H7 H8) as [p [u [E [_ L]]]].
   exists p, u, (preamble_replies maxc w). split; assumption.
 Qed.
+
+(* ==== pinned from the proof files (tools/write_props.py) ==== *)
+
+(* ---- stream parser and the hand-off back ----  over every legal schedule the unparsed input is exactly the
+   unread suffix of (leftover ++ fed); at a record boundary with the output taken, into_request_parser succeeds
+   and the new request parser holds exactly those bytes (capacity unchanged, state Header); into_input returns
+   them; off a boundary both refuse *)
+Theorem C05_stream_handoff :
+  forall (maxc : N) (p0 : sp) (ops : list cop),
+  sp_inv p0 ->
+  csched_legal maxc p0 ops ->
+  let pf := cfinal maxc p0 ops in
+  (exists consumed : list N, raw_bytes p0 ++ cfed ops = consumed ++ raw_bytes pf) /\
+  (is_record_boundary pf = true -> into_input pf = Some (raw_bytes pf)) /\
+  (is_record_boundary pf = true ->
+   output_buffer pf = [] ->
+   exists rp' : parser,
+     into_request_parser pf = ConvOk rp' /\
+     held rp' = raw_bytes pf /\ cap rp' = len (buffer p0) /\ st rp' = Header) /\
+  (is_record_boundary pf = false -> into_input pf = None /\ into_request_parser pf = ConvInterrupted).
+Proof. exact C05_stream. Qed.
+
+(* request parser -> stream parser: the leftover becomes the raw input, nothing else *)
+Theorem C05_to_stream_parser :
+  forall (rp : parser) (r : req),
+  parser_ok rp ->
+  st rp = Done r ->
+  exists sp0 : sp,
+    into_stream_parser rp = inl sp0 /\
+    sp_inv sp0 /\
+    sreq sp0 = r /\
+    stream sp0 = next_input_stream (r_role r) None /\
+    len (buffer sp0) = cap rp /\
+    stream_buffer sp0 = [] /\
+    output_buffer sp0 = [] /\
+    raw_bytes sp0 = held rp /\
+    payload_rem sp0 = 0 /\
+    padding_rem sp0 = 0 /\
+    abs sp0 =
+    {|
+      a_B := cap rp;
+      a_space := cap rp - len (held rp);
+      a_parsed := [];
+      a_raw := held rp;
+      a_out := [];
+      a_req := r;
+      a_stream := next_input_stream (r_role r) None;
+      a_prem := 0;
+      a_pad := 0;
+      a_st := SSkip
+    |}.
+Proof. exact into_stream_parser_inv. Qed.
+
